@@ -158,7 +158,7 @@ func famConcurrent(sc *scn.Scenario, em func(vt.Ev)) {
 	store.Perturb = func(int64) { yield("") }
 	type res struct {
 		client, round, qi int
-		o              Obs
+		o                 Obs
 	}
 	results := make(chan res, k*rounds)
 	var wg sync.WaitGroup
